@@ -12,6 +12,7 @@ import (
 	"path/filepath"
 	"sort"
 	"strings"
+	"sync/atomic"
 	"syscall"
 	"time"
 
@@ -206,8 +207,8 @@ type DeadlockPanic struct{ What string }
 // A call that passes more than RunawayBudget lock sites on trees of a few dozen nodes does not terminate: a logical
 // verdict ("runaway"), no timer involved.
 var (
-	LockEvents    int64
-	callStart     int64
+	LockEvents    atomic.Int64
+	callStart     atomic.Int64
 	RunawayBudget int64 = 1_000_000
 )
 
@@ -216,9 +217,9 @@ type RunawayPanic struct{}
 
 // CheckRunaway is called by the sequential lock hook.
 func CheckRunaway() {
-	LockEvents++
-	if LockEvents-callStart > RunawayBudget {
-		callStart = LockEvents
+	n := LockEvents.Add(1)
+	if n-callStart.Load() > RunawayBudget {
+		callStart.Store(n)
 		panic(RunawayPanic{})
 	}
 }
@@ -301,7 +302,7 @@ func (e *Env) Exec(o Op) (r Res) {
 			r = Res{Err: "panic", Raw: fmt.Sprint(p)}
 		}
 	}()
-	callStart = LockEvents
+	callStart.Store(LockEvents.Load())
 	return e.exec(o)
 }
 
@@ -575,10 +576,12 @@ func (e *Env) execFile(o Op) Res {
 		return res(nil, f.Name())
 	case "F.ReadDir":
 		es, err := f.ReadDir(int(o.N))
+		es = append([]fs.DirEntry(nil), es...) // the returned slice may alias the handle's cache: never sorted in place
 		sort.Slice(es, func(i, j int) bool { return es[i].Name() < es[j].Name() })
 		return resv(err, entriesStr(es))
 	case "F.Readdirnames":
 		ns, err := f.Readdirnames(int(o.N))
+		ns = append([]string(nil), ns...)
 		sort.Strings(ns)
 		return resv(err, "["+strings.Join(ns, " ")+"]")
 	}
